@@ -537,12 +537,14 @@ class HyperscanTokenizer(Tokenizer):
             if start in byte_to_str_offset and end in byte_to_str_offset:
                 start = byte_to_str_offset[start]
                 end = byte_to_str_offset[end]
-                m = extractor.compiled_regex.match(text[start:end])
+                # match in place rather than on a slice, so that anchors and
+                # boundaries see the real context of the match
+                m = extractor.compiled_regex.match(text, start, end)
                 if m is None:
                     # hyperscan matches bytes; python may disagree, e.g. on
                     # non-ascii whitespace
                     continue
-                yield extractor.get_token(m, offset=start)
+                yield extractor.get_token(m)
 
     @property
     def hyperscan_db(self):
